@@ -135,6 +135,7 @@ func init() {
 	}})
 	register(&PropertyRule{ID: "C18", Explain: "structural necessary conditions of C18 (log storage views): see DESIGN.md §5 C18", Run: func(c *Check) {
 		c18Storage(c)
+		cSnapClear(c) // the pending snapshot is part of the combined view
 		cStorageSnapshot(c)
 		gStable(c)
 		sliceRules(c)
